@@ -343,6 +343,80 @@ func c16ChannelsPrefixed(c *engine.Ctx, li *engine.LockInfo, rid string) {
 		})
 	}
 	c.Floor(ns, 10)
+
+	// reassigned channel fields
+	c.Rule(rid+"d", "a channel field that is replaced (set to nil or re-made) after construction, under a mutex, is not re-read without that mutex by the goroutine that sends on it: the sender either holds the mutex or works on the channel value it was started with (a sender that re-reads the field can find nil and block forever, holding the connection it was about to hand over)")
+	nd := 0
+	type reasg struct {
+		mus map[*types.Var]bool
+		pos token.Pos
+	}
+	re := map[*types.Var]*reasg{}
+	for _, f := range p.RepoFuncs() {
+		engine.ForEachInstr(f, func(in ssa.Instruction) {
+			st, ok := in.(*ssa.Store)
+			if !ok {
+				return
+			}
+			fv, base := engine.LoadedField(st.Addr)
+			if fv == nil {
+				return
+			}
+			if _, isCh := fv.Type().Underlying().(*types.Chan); !isCh {
+				return
+			}
+			if _, local := base.(*ssa.Alloc); local {
+				return // constructor
+			}
+			held := li.HeldAt(in)
+			if len(held) == 0 {
+				return
+			}
+			r := re[fv]
+			if r == nil {
+				r = &reasg{mus: map[*types.Var]bool{}, pos: in.Pos()}
+				re[fv] = r
+			}
+			for m := range held {
+				r.mus[m] = true
+			}
+		})
+	}
+	for _, f := range p.RepoFuncs() {
+		f := f
+		engine.ForEachInstr(f, func(in ssa.Instruction) {
+			var chans []ssa.Value
+			switch x := in.(type) {
+			case *ssa.Send:
+				chans = append(chans, x.Chan)
+			case *ssa.Select:
+				for _, stt := range x.States {
+					if stt.Dir == types.SendOnly {
+						chans = append(chans, stt.Chan)
+					}
+				}
+			}
+			for _, ch := range chans {
+				fv, _ := engine.LoadedField(ch)
+				r := re[fv]
+				if fv == nil || r == nil {
+					continue
+				}
+				nd++
+				held := li.HeldAt(in)
+				okHeld := false
+				for m := range r.mus {
+					if held[m] > 0 {
+						okHeld = true
+					}
+				}
+				c.Check(okHeld, fmt.Sprintf("%s>send-rereads-field@%s", fieldOwner(p, fv), p.FuncName(f)), in.Pos(), 2,
+					[]string{"field replaced at " + p.Pos(r.pos), "held at the send: " + strings.Join(held.Names(), ",")},
+					"the sender re-reads channel field %s, which is replaced elsewhere under a mutex, with that mutex held", fieldOwner(p, fv))
+			}
+		})
+	}
+	c.Note("channel fields replaced after construction under a mutex: %d; sends that re-read such a field: %d", len(re), nd)
 }
 
 // guardedByFlag: every path to the close passes a test of a bool field of the receiver with outcome false.
